@@ -9,5 +9,7 @@ import (
 
 func htmlEntityDecode(data string) (string, bool, error) {
 	transformedData := html.UnescapeString(data)
-	return transformedData, len(data) != len(transformedData), nil
+	// A decoded entity can be exactly as long as its source ("&#0" -> U+FFFD), so comparing
+	// lengths is not enough to tell whether the value changed.
+	return transformedData, data != transformedData, nil
 }
